@@ -153,7 +153,9 @@ def inline_locals(expr, fnode, depth=4):
     """copy of expr in which every local name that is assigned exactly once in the function (a plain `x = value` statement,
     not a loop target / augmented assignment / parameter) is replaced by its value, recursively: rules can then state what a
     value *is* without naming the temporaries it went through"""
-    import copy
+    def clone(e):
+        # a deepcopy would follow the `_parent` links and copy the whole module; round-trip through text instead
+        return ast.parse(ast.unparse(e), mode='eval').body
     single = {}
     counts = {}
     params = {a.arg for a in fnode.args.args + fnode.args.kwonlyargs} if hasattr(fnode, 'args') else set()
@@ -179,9 +181,9 @@ def inline_locals(expr, fnode, depth=4):
 
         def visit_Name(self, node):
             if isinstance(node.ctx, ast.Load) and node.id in ok and self.d > 0:
-                return Sub(self.d - 1).visit(copy.deepcopy(ok[node.id]))
+                return Sub(self.d - 1).visit(clone(ok[node.id]))
             return node
-    return Sub(depth).visit(copy.deepcopy(expr))
+    return Sub(depth).visit(clone(expr))
 
 
 def plus_one_of(expr):
